@@ -10,16 +10,57 @@ def available():
     return os.path.exists(os.path.join(vlib.LEAN_DIR, "Yarel", "Drv", "Spec.lean"))
 
 
+SPEC_FUEL = int(os.environ.get("VERIF_SPEC_FUEL", "1000000"))      # machine steps of (S) per snippet; terminating generated programs need < 300 000
+SPEC_CASE_SECONDS = float(os.environ.get("VERIF_SPEC_CASE_SECONDS", "30"))
+
+
+def _with_fuel(line):
+    if " fuel=" in line.split(" -- ", 1)[0]:
+        return line
+    head, sep, tail = line.partition(" -- ")
+    return head + " fuel=%d" % SPEC_FUEL + sep + tail
+
+
 def _run_spec_chunk(case_lines):
-    out, rc, err = vlib.run_lines([vlib.MODEL_EXE, "spec"], case_lines, timeout=1800)
+    """One driver process answers the cases in order.  A case that runs longer than SPEC_CASE_SECONDS (a non-terminating generated
+    program whose data grows, so that its steps get slower and slower) is abandoned as a timeout of (S) - inconclusive, exactly like
+    running out of fuel - and the remaining cases continue in a new process."""
+    import subprocess, threading, queue
     res = []
-    for l in out:
+    i = 0
+    while i < len(case_lines):
+        p = subprocess.Popen([vlib.MODEL_EXE, "spec"], stdin=subprocess.PIPE, stdout=subprocess.PIPE, stderr=subprocess.DEVNULL, text=True)
+        q = queue.Queue()
+
+        def reader(proc=p, qq=q):
+            for l in proc.stdout:
+                qq.put(l)
+            qq.put(None)
+        threading.Thread(target=reader, daemon=True).start()
         try:
-            res.append(json.loads(l))
-        except Exception:
-            res.append({"error": l[:200]})
+            while i < len(case_lines):
+                p.stdin.write(_with_fuel(case_lines[i]) + "\n")
+                p.stdin.flush()
+                try:
+                    l = q.get(timeout=SPEC_CASE_SECONDS)
+                except queue.Empty:
+                    res.append({"steps": [{"status": "timeout", "wall": "abandoned after %.0fs" % SPEC_CASE_SECONDS}]})
+                    i += 1
+                    break
+                if l is None:
+                    raise RuntimeError("spec driver ended early at case %d of %d" % (i, len(case_lines)))
+                try:
+                    res.append(json.loads(l))
+                except Exception:
+                    res.append({"error": l[:200]})
+                i += 1
+        finally:
+            try:
+                p.kill()
+            except Exception:
+                pass
     if len(res) != len(case_lines):
-        raise RuntimeError("spec driver answered %d lines for %d cases (rc=%s) %s" % (len(res), len(case_lines), rc, err[-500:]))
+        raise RuntimeError("spec driver answered %d lines for %d cases" % (len(res), len(case_lines)))
     return res
 
 
